@@ -68,7 +68,10 @@ function invoke (exportsObj, name, handler) {
   try {
     Error.prepareStackTrace = handler
     try {
-      exportsObj[name]({ s: 'x', x: null }, 'b')
+      const ret = exportsObj[name]({ s: 'x', x: null }, 'b')
+      // a site may hand back a function made by eval inside the rewritten file: it is called from here, i.e. with no
+      // ordinary frame of the rewritten file on the stack
+      if (typeof ret === 'function') ret(undefined)
       return { threw: false }
     } catch (e) {
       let st
@@ -301,6 +304,27 @@ async function pkgOp (req) {
       const r = inst.rewrite(req.code, req.file)
       const again = inst.rewrite(req.code, req.file)
       out[k] = { same: r.content === req.native.content && again.content === req.native.content, status: r.metrics && r.metrics.status, len: r.content.length, expected: req.native.content.length, tail: String(r.content).slice(-80) }
+    }
+    return out
+  }
+  if (req.op === 'metricsfile') {
+    // the same text under the same base name in two directories (a package installed twice): every response names the file
+    // of ITS call
+    const path2 = require('path')
+    const file2 = path2.join(path2.dirname(req.file), 'node_modules', 'copy', path2.basename(req.file))
+    const native2 = JSON.parse(JSON.stringify(req.native))
+    if (native2.metrics) native2.metrics.file = file2
+    if (native2.literalsResult) native2.literalsResult.file = file2
+    table.set(req.file + '\0' + req.code, { ok: req.native })
+    table.set(file2 + '\0' + req.code, { ok: native2 })
+    const out = {}
+    for (const [k, C] of [['cache', p.Rewriter], ['nocache', p.NonCacheRewriter]]) {
+      const inst = new C(req.config || {})
+      const r1 = inst.rewrite(req.code, req.file)
+      const r2 = inst.rewrite(req.code, file2)
+      const r3 = inst.rewrite(req.code, req.file)
+      const f = (r) => r && r.metrics && r.metrics.file
+      out[k] = { ok: f(r1) === req.file && f(r2) === file2 && f(r3) === req.file && (!r2.literalsResult || r2.literalsResult.file === file2), files: [f(r1), f(r2), f(r3)], asked: [req.file, file2, req.file] }
     }
     return out
   }
